@@ -83,9 +83,13 @@ type Scn struct {
 	Creds    map[string]string `json:"creds"`
 	// EmptyName: the configuration also lists an account whose user name is a placeholder that
 	// resolves to nothing
-	EmptyName bool      `json:"empty_name,omitempty"`
-	Form      string    `json:"form,omitempty"`     // "" = JSON configuration; "caddyfile" = the same options written as a Caddyfile block and parsed by the handler's UnmarshalCaddyfile
-	D         *Dialogue `json:"dialogue,omitempty"` // replay
+	EmptyName bool `json:"empty_name,omitempty"`
+	// Dangling (Caddyfile form): all pairs on one credentials line, followed by a user name
+	// without a password.  The documented syntax has pairs only: the block is refused - and if
+	// it is not, the dangling name is nobody's account
+	Dangling string    `json:"dangling,omitempty"`
+	Form     string    `json:"form,omitempty"`     // "" = JSON configuration; "caddyfile" = the same options written as a Caddyfile block and parsed by the handler's UnmarshalCaddyfile
+	D        *Dialogue `json:"dialogue,omitempty"` // replay
 	// Rotate: commands and passwords are written as {env.*} placeholders; a first handler is
 	// provisioned while the variables hold OTHER values (the configuration before a secret was
 	// rotated and the config reloaded), then the variables are set to the values of this
@@ -154,8 +158,16 @@ func handlerConfig(sc *Scn) (json.RawMessage, error) {
 		users = append(users, u)
 	}
 	sort.Strings(users)
-	for _, u := range users {
-		fmt.Fprintf(&sb, "\tcredentials %q %q\n", u, sc.Creds[u])
+	if sc.Dangling != "" {
+		sb.WriteString("\tcredentials")
+		for _, u := range users {
+			fmt.Fprintf(&sb, " %q %q", u, sc.Creds[u])
+		}
+		fmt.Fprintf(&sb, " %q\n", sc.Dangling)
+	} else {
+		for _, u := range users {
+			fmt.Fprintf(&sb, "\tcredentials %q %q\n", u, sc.Creds[u])
+		}
 	}
 	sb.WriteString("}\n")
 	h := &l4socks.Socks5Handler{}
@@ -388,6 +400,9 @@ func dialogues(sc *Scn, tier string, yield func(*Dialogue) bool) {
 	for _, p := range sc.Creds {
 		passes = append(passes, p)
 	}
+	if sc.Dangling != "" {
+		users, passes = append(users, sc.Dangling), append(passes, sc.Dangling)
+	}
 	users, passes = uniq(users), uniq(passes)
 	for _, gver := range []int{5, 4} {
 		for _, ms := range methodSets {
@@ -476,6 +491,14 @@ func scenarios(tier string, yield func(any) bool) {
 			if len(cr) > 0 && len(cs) <= 1 {
 				if !yield(&Scn{Commands: cs, Creds: cr, EmptyName: true}) {
 					return
+				}
+			}
+			if len(cr) > 0 && len(cs) <= 1 {
+				dg := &Scn{Commands: cs, Creds: cr, Form: "caddyfile", Dangling: "bob"}
+				if _, err := handlerConfig(dg); err == nil { // (refusing the block is the right answer)
+					if !yield(dg) {
+						return
+					}
 				}
 			}
 			cf := &Scn{Commands: cs, Creds: cr, Form: "caddyfile"}
